@@ -53,22 +53,27 @@ theorem inv_adminUnreserve (s : State) (ip : IP) (h : Inv s) : Inv (step Facts.g
   simp only [step]
   split
   · exact h
-  · rename_i r0 hr0
-    obtain ⟨ha, hk⟩ := h.safe.admin ip r0 hr0
-    refine h.of_tables ?_ ?_ rfl rfl rfl rfl
-    · exact coherent_erase ip r0 h.coh ha rfl rfl rfl rfl
-    refine ⟨fun q hq hd hm => ?_, fun j r hr => ?_⟩
-    · obtain ⟨r, g1, g2, g3⟩ := h.safe.own q hq hd hm
-      have hne : ip ≠ hd.ip := by
-        intro e
-        rw [← e, ha] at g1; cases g1
-        rw [g2, keyOf_not_admin] at hk; cases hk
-      exact ⟨r, by show Tbl.get (Tbl.erase s.alloc ip) hd.ip = some r; rw [Tbl.get_erase_ne _ hne]; exact g1, g2, g3⟩
-    · have hr' : Tbl.get (Tbl.erase s.admin ip) j = some r := hr
-      show Tbl.get (Tbl.erase s.alloc ip) j = some r ∧ _
-      by_cases e : ip = j
-      · subst e; rw [Tbl.get_erase_self] at hr'; cases hr'
-      · rw [Tbl.get_erase_ne _ e] at hr' ⊢
-        exact h.safe.admin j r hr'
+  · rename_i r0 ha
+    split
+    · exact h
+    · rename_i hres
+      have hk : r0.key.isAdmin = true := by
+        simp only [Bool.not_eq_true, Bool.not_eq_eq_eq_not, Bool.not_true, Bool.not_eq_false, Bool.and_eq_true] at hres
+        exact hres.2
+      refine h.of_tables ?_ ?_ rfl rfl rfl rfl
+      · exact coherent_erase ip r0 h.coh ha rfl rfl rfl rfl
+      refine ⟨fun q hq hd hm => ?_, fun j r hr => ?_⟩
+      · obtain ⟨r, g1, g2, g3⟩ := h.safe.own q hq hd hm
+        have hne : ip ≠ hd.ip := by
+          intro e
+          rw [← e, ha] at g1; cases g1
+          rw [g2, keyOf_not_admin] at hk; cases hk
+        exact ⟨r, by show Tbl.get (Tbl.erase s.alloc ip) hd.ip = some r; rw [Tbl.get_erase_ne _ hne]; exact g1, g2, g3⟩
+      · have hr' : Tbl.get (Tbl.erase s.admin ip) j = some r := hr
+        show Tbl.get (Tbl.erase s.alloc ip) j = some r ∧ _
+        by_cases e : ip = j
+        · subst e; rw [Tbl.get_erase_self] at hr'; cases hr'
+        · rw [Tbl.get_erase_ne _ e] at hr' ⊢
+          exact h.safe.admin j r hr'
 
 end Galaxy.Plugin
